@@ -86,8 +86,8 @@ Definition map_field_text (name : string) (n : node) : res string :=
   do r <- raw_map_field_value (content n) name;
   Ok (match r with Some v => node_value v | None => "" end).
 
-Definition get_kind := map_field_text "kind".
-Definition get_api_version := map_field_text "apiVersion".
+Definition rn_get_kind := map_field_text "kind".
+Definition rn_get_api_version := map_field_text "apiVersion".
 
 (* IsYNodeNilOrEmpty of a present node *)
 Definition nil_or_empty (v : node) : bool :=
@@ -203,10 +203,10 @@ End GetFieldValue.
 From KV Require Export Yaml.FieldSpec.
 
 Definition is_match_gvk_raw (fs : fieldspec) (obj : node) : res bool :=
-  do k <- get_kind obj;
+  do k <- rn_get_kind obj;
   if negb (String.eqb (fs_kind fs) "") && negb (String.eqb (fs_kind fs) k) then Ok false
   else
-    do av <- get_api_version obj;
+    do av <- rn_get_api_version obj;
     let (g, v) := parse_group_version av in
     Ok ((String.eqb (fs_group fs) "" || String.eqb (fs_group fs) g) &&
         (String.eqb (fs_version fs) "" || String.eqb (fs_version fs) v)).
